@@ -21,6 +21,9 @@ def main():
     if prop in ("C01", "C05", "C07"):
         from tx import subst
         obs += subst.obligations(prop)
+    if prop in ("C03", "C05", "C06", "C10"):
+        from tx import pipeline
+        obs += pipeline.obligations()
     json.dump(dict(obligations=obs), sys.stdout, ensure_ascii=False)
 
 
